@@ -86,6 +86,7 @@ package zlib
 //@   ensures@3[C07 C15 trailer-cut] err != io.EOF && (rfErr == io.EOF ==> err == io.ErrUnexpectedEOF) && (rfErr != io.EOF ==> err == rfErr)
 //@   ensures@2[C15 src-err] err != io.EOF
 //@   ensures[C07 eof-only-checked] err == io.EOF && old(z.err) == nil ==> z.err == io.EOF
+//@   assert call ReadFull 1 [C11 no-data-held] typeis(z.decompressor, *github.com/intel/fastgo/compress/flate.decompressor) ==> n == 0
 
 //@ func (*reader).Close
 //@   params z -> err
